@@ -14,6 +14,8 @@ CLAIMED = {
          'untracked (bulk-loaded) entries are never chosen (documented); mru+purge stale entry (F27) listed', '5 C06'),
  'C07': ('Klepto.C07: leaving memory implies archived with the same value (all evictions incl. multi-victim lfu and purge), archive entries stable, results retained; ' + W,
          'no_cache with pre-populated un-archived entries (F26) excluded by hypothesis and listed', '5 C07'),
+ 'C08': ('Klepto.C08: equational laws of model M2 pointwise in the key: dict ops frame, dump = arch+mem (keyed: only listed resident keys), load = mem+arch (keyed: only listed archived keys), sync / sync(clear), off parks the archive and makes dump/load/sync no-ops, off;on = id, null archive stays empty; suite `cache`: a bare klepto.archives.cache over dict/file/dir/sqlite/null archives, random interleavings incl. direct archive mutation, open/drop/archive=, compared with the model on (exception, mem, archive, parked archive, archived())',
+         'the archive contents are read through __asdict__/items of the real backend; backend fidelity itself is C03', '5 C08'),
  'C15': ('Klepto.C15: counters move by exactly the classified event on every path; ghost-account theorem over all histories; completed iff counted; info/clear; ' + W,
          'mru IndexError (F2) excluded from completed-iff-counted', '5 C15'),
  'C16': ('Klepto.C16: a raising miss is literally a no-op with one evaluation; safe key failures evaluate once and return; single evaluation always; ' + W,
